@@ -1,7 +1,8 @@
 /-
   Driver for C04: one geometry per request line.
 
-  request   fromgeo <conv> <atm> <atmvol> <atmconn> <order> <gdcx|-> <gdcy|-> <rotc> <rots>
+  request   fromgeo <conv> <atm> <atmvol> <atmconn> <order> <gdcx|-> <gdcy|-> <tx> <ty> <tz> <rotc> <rots>
+                    (tx ty tz: the real tilt_vector, used only when the model's own is irrational)
                     <nlayers> {<name> <bottom> <centre> <top>}*          (layerlist, first = atmosphere layer)
                     <ncols>   {<name> <nnodes> {<x> <y>}* <cx> <cy> <surface>}*
                     <nconns>  {<i> <j> <x0> <y0> <x1> <y1>}*             (column indices, node positions)
@@ -9,11 +10,11 @@
                     <nmap>    {<key> <value>}*                           (blockmap)
   names are `x` + hex; rationals `num/den` or integers.
 
-  reply     ok <fresh 0|1> T <tx> <ty> <tz>
+  reply     ok <fresh 0|1> T <exact 0|1> <tx> <ty> <tz>
                NL <ok n {name}* | exc E>       (setup_block_name_index recomputed)
                CL <ok n {name name}* | exc E>  (setup_block_connection_name_index)
                G <ok B n {name vol|- cx cy cz|- atm}* K n {b0 b1 dirn d0c d0r d1c d1r ac ar cc cr}* | exc E>
-            | irrational-tilt | bad <msg>
+            | bad <msg>
 -/
 import PyTough.Model.FromGeo
 import PyTough.Py.Proto
@@ -115,6 +116,9 @@ def pReq : P Req := do
   let order ← pNat
   let gx ← pOptRat
   let gy ← pOptRat
+  let tx ← pRat
+  let ty ← pRat
+  let tz ← pRat
   let rot ← pP2
   let nl ← pNat
   let layers ← pMany pLayer nl
@@ -131,7 +135,7 @@ def pReq : P Req := do
   | l0 :: ls =>
     let (tilt, ok) := match tiltVector? gx gy with
       | some t => (t, true)
-      | none => (⟨0, 0, -1⟩, false)
+      | none => (⟨tx, ty, tz⟩, false)
     pure ⟨⟨conv, atm, av, ac, order, l0, ls, cols, conns, tilt, rot, names⟩, m, ok⟩
 
 def showRat (q : Rat) : String := if q.den = 1 then s!"{q.num}" else s!"{q.num}/{q.den}"
@@ -155,10 +159,9 @@ def showGrid (t : Grid) : String :=
   s!" K {t.conns.length} " ++ " ".intercalate (t.conns.map showConn)
 
 def handleFromgeo (r : Req) : String :=
-  if !r.tiltOk then "irrational-tilt" else
   let g := r.geo
   let fresh := if decide (Fresh g) then "1" else "0"
-  s!"ok {fresh} T {showRat g.tilt.x} {showRat g.tilt.y} {showRat g.tilt.z} NL " ++
+  s!"ok {fresh} T {if r.tiltOk then 1 else 0} {showRat g.tilt.x} {showRat g.tilt.y} {showRat g.tilt.z} NL " ++
     showEx (fun (l : List Str) => s!"{l.length} " ++ " ".intercalate (l.map showName)) (blockNameList g) ++ " CL " ++
     showEx (fun (l : List (Str × Str)) => s!"{l.length} " ++ " ".intercalate (l.map fun p => showName p.1 ++ " " ++ showName p.2))
       (blockConnectionNameList g) ++ " G " ++
